@@ -950,7 +950,7 @@ class Terminal:
         data needs to already be a binary string matching the binary type of
         the parameter.
         """
-        if len(data) <= 4 and subindex is not None:
+        if 0 < len(data) <= 4 and subindex is not None:
             async with self.mbx_lock:
                 await self.mbx_send(
                         MBXType.COE, "HBHB4s", CoECmd.SDOREQ.value << 12,
